@@ -413,6 +413,17 @@ func drawConfig(t *rapid.T, d *drawn) *config {
 			usedPre[pre] = true
 			c.override[pl] = pre
 		}
+		if c.global != "" && len(c.override) > 0 && rapid.IntRange(0, 2).Draw(t, "global-like-plugin-name") == 0 {
+			// the global prefix is the beginning of the name of a plugin that has an override (-prefix=go with
+			// gostring=..., -prefix=d with deepcopy=...): keys of the override map are plugin names, not prefixes
+			var names []string
+			for pl := range c.override {
+				names = append(names, pl)
+			}
+			sort.Strings(names)
+			pl := names[rapid.IntRange(0, len(names)-1).Draw(t, "global-like-which")]
+			c.global = pl[:rapid.IntRange(1, len(pl)).Draw(t, "global-like-len")]
+		}
 	default:
 		// nested: one plugin's prefix is a proper prefix of another's, both directions of default length
 		if len(d.plugins) < 2 {
